@@ -39,6 +39,14 @@ structure Circ (P α : Type) where
   numCycles : Nat
   ops : List (Nat × GOp P α)
 
+/-- What `Circuit` guarantees about its grid (C04/C05 own these facts): every operation
+lies inside the grid, has a non-empty location and as many stored parameters as its gate
+takes, and two operations of the same cycle never share a qudit. -/
+def Circ.WF (c : Circ P α) : Prop :=
+  (∀ e ∈ c.ops, e.1 < c.numCycles ∧ e.2.loc ≠ [] ∧ (∀ q ∈ e.2.loc, q < c.radixes.length)
+      ∧ e.2.params.length = e.2.numParams) ∧
+  c.ops.Pairwise (fun a b => a.1 = b.1 → ∀ q, q ∈ a.2.loc → q ∉ b.2.loc)
+
 /-- Sort key of default iteration: `(cycle, location[0])`. -/
 def opKey (e : Nat × GOp P α) : Nat × Nat := (e.1, e.2.loc.headD 0)
 
